@@ -13,7 +13,8 @@ EXPLANATION = (
     'a transposed result has the same shape for equal stack sizes, so tests cannot see it; (SYM) operand 1 and operand 2 '
     'are centred / ranked / normalised / whitened by identical code up to renaming; (FWD) sigma_k reaches every '
     'whitening helper. Numeric agreement with the definitions, ranges and permutation invariance are NOT decided.'
-    ' Also: (RUNLEN) run-length counting has a sentinel at both ends (joint ties of tau-a).')
+    ' Also: (RUNLEN) run-length counting has a sentinel at both ends (joint ties of tau-a).'
+    ' Round 6: (LOSSY-GUARD) sigma_k is not discarded on the evidence of its diagonal alone.')
 ASSUMPTIONS = [
     'role contracts of the kernels (sa/props/c03.py CONTRACTS) follow the docstrings: vector1 = (A, P), vector2 = (B, P)',
     'numpy broadcasting / einsum / reduction semantics as encoded in sa/rules/axis.py',
